@@ -251,11 +251,14 @@ def eq(a, b, st: St):
 
 def seq_eq(a: Val, b: Val, st: St):
     h = st.heap
-    j = z3.Int(smt.fresh_name("sq"))
-    ea = Val(h.c["sa"][a.t][j], a.ty[1])
-    eb = Val(h.c["sa"][b.t][j], b.ty[1])
-    return z3.And(h.c["sl"][a.t] == h.c["sl"][b.t],
-                  z3.ForAll([j], z3.Implies(z3.And(0 <= j, j < h.c["sl"][a.t]), eq(ea, eb, st))))
+    j = z3.Int(smt.push_binder("sq"))
+    try:
+        ea = Val(h.c["sa"][a.t][j], a.ty[1])
+        eb = Val(h.c["sa"][b.t][j], b.ty[1])
+        return z3.And(h.c["sl"][a.t] == h.c["sl"][b.t],
+                      z3.ForAll([j], z3.Implies(z3.And(0 <= j, j < h.c["sl"][a.t]), eq(ea, eb, st))))
+    finally:
+        smt.pop_binder()
 
 
 def identical(a, b, st: St):
@@ -278,7 +281,7 @@ def alloc(st: St, prefix: str, ty):
 
 def alloc_seq(st: St, items, kind="list", elem_ty=ANY):
     v = alloc(st, kind, SEQ(elem_ty))
-    arr = z3.K(z3.IntSort(), smt.NONE)
+    arr = z3.Const(smt.fresh_name("seq0"), smt.IV)
     for j, t in enumerate(items):
         arr = z3.Store(arr, j, t)
     h = st.heap
@@ -357,6 +360,9 @@ def wrap_elem(t, ty):
     return Val(t, ty)
 
 
+_VIEW_CACHE: dict = {}
+
+
 def seq_view(val, st: St) -> SeqView:
     """(len, at) view of an iterable value; facts must be assumed by the caller."""
     h = st.heap
@@ -385,16 +391,20 @@ def seq_view(val, st: St) -> SeqView:
         comp = "dh" if k == "dict" else "sh"
         size = h.c["dn"][r] if k == "dict" else h.c["sn"][r]
         ety = ty[1]
-        enum_f = z3.Function(smt.fresh_name("enum"), z3.IntSort(), V)
-        idx_f = z3.Function(smt.fresh_name("enum_idx"), V, z3.IntSort())
-        i = z3.Int(smt.fresh_name("ei"))
-        kx = z3.Const(smt.fresh_name("ek"), V)
+        ckey = (r.get_id(), h.c[comp].get_id(), size.get_id())
+        if ckey not in _VIEW_CACHE:
+            _VIEW_CACHE[ckey] = (z3.Function(smt.fresh_name("enum"), z3.IntSort(), V), z3.Function(smt.fresh_name("enum_idx"), V, z3.IntSort()), r, h.c[comp], size)
+        enum_f, idx_f = _VIEW_CACHE[ckey][:2]
+        i = z3.Int("ei")
+        kx = z3.Const("ek", V)
         facts = [
-            z3.ForAll([i], z3.Implies(z3.And(0 <= i, i < size), z3.And(h.c[comp][r][enum_f(i)], idx_f(enum_f(i)) == i)), patterns=[enum_f(i)]),
+            # enum is injective on ALL integers (consistent: V is infinite); unconditional inverse closes E-matching chains
+            z3.ForAll([i], idx_f(enum_f(i)) == i, patterns=[enum_f(i)]),
+            z3.ForAll([i], z3.Implies(z3.And(0 <= i, i < size), h.c[comp][r][enum_f(i)]), patterns=[enum_f(i)]),
             z3.ForAll([kx], z3.Implies(h.c[comp][r][kx], z3.And(0 <= idx_f(kx), idx_f(kx) < size, enum_f(idx_f(kx)) == kx)), patterns=[h.c[comp][r][kx]]),
             size >= 0,
         ]
-        return SeqView(size, lambda i: Val(enum_f(i), ety), ety, facts)
+        return SeqView(size, lambda i: Val(enum_f(i), ety), ety, facts, index_of=idx_f)
     raise Unsupported(f"iteration over value of type {ty}")
 
 
@@ -405,9 +415,16 @@ def contains(container, item, st: St):
         if not container.items:
             return z3.BoolVal(False)
         return z3.Or(*[eq(x, item, st) for x in container.items])
+    if isinstance(container, SeqView) and container.index_of is not None:
+        t = to_v(item, st)
+        ix = container.index_of(t)
+        return z3.And(0 <= ix, ix < container.len, to_v(container.at(ix), st) == t)
     if isinstance(container, SeqView):
-        j = z3.Int(smt.fresh_name("cj"))
-        return z3.Exists([j], z3.And(0 <= j, j < container.len, eq(container.at(j), item, st)))
+        j = z3.Int(smt.push_binder("cj"))
+        try:
+            return z3.Exists([j], z3.And(0 <= j, j < container.len, eq(container.at(j), item, st)))
+        finally:
+            smt.pop_binder()
     if not isinstance(container, Val):
         raise Unsupported(f"`in` on {container!r}")
     ty = strip_opt(container.ty)
@@ -418,12 +435,18 @@ def contains(container, item, st: St):
     if k == "set":
         return h.c["sh"][r][to_v(item, st)]
     if k == "seq":
-        j = z3.Int(smt.fresh_name("cj"))
-        return z3.Exists([j], z3.And(0 <= j, j < h.c["sl"][r], eq(Val(h.c["sa"][r][j], ty[1]), item, st)))
+        j = z3.Int(smt.push_binder("cj"))
+        try:
+            return z3.Exists([j], z3.And(0 <= j, j < h.c["sl"][r], eq(Val(h.c["sa"][r][j], ty[1]), item, st)))
+        finally:
+            smt.pop_binder()
     if k == "any":
         it = to_v(item, st)
-        j = z3.Int(smt.fresh_name("cj"))
-        in_seq = z3.Exists([j], z3.And(0 <= j, j < h.c["sl"][r], eq(Val(h.c["sa"][r][j], ANY), item, st)))
+        j = z3.Int(smt.push_binder("cj"))
+        try:
+            in_seq = z3.Exists([j], z3.And(0 <= j, j < h.c["sl"][r], eq(Val(h.c["sa"][r][j], ANY), item, st)))
+        finally:
+            smt.pop_binder()
         return z3.If(smt.is_dict(r), h.c["dh"][r][it], z3.If(smt.is_set(r), h.c["sh"][r][it], in_seq))
     raise Unsupported(f"`in` on type {ty}")
 
